@@ -10,6 +10,7 @@ import (
 	"encoding/json"
 	"flag"
 	"fmt"
+	"hash/fnv"
 	"os"
 	"os/exec"
 	"path/filepath"
@@ -69,6 +70,11 @@ type Check struct {
 	Exhaustive    func(tier string) bool
 	ShardTimeout  func(tier string) time.Duration
 	Extra         func(tier string) map[string]interface{} // extra coverage keys
+	// UnstableList: the scenario list is derived from a dry run of the code under test and may differ by a
+	// few cases from process to process. Shards then pick their scenarios by a hash of the scenario id
+	// instead of by position (no scenario runs twice; one that is missing from its owner's list is skipped),
+	// and the list fingerprint is not enforced.
+	UnstableList bool
 }
 
 // Hold builds a held result.
@@ -197,6 +203,16 @@ func firstDrpcFrame(stack string) string {
 	return "unknown"
 }
 
+// listFingerprint identifies a scenario list by the ids in order.
+func listFingerprint(all []Scenario) string {
+	h := fnv.New64a()
+	for _, s := range all {
+		h.Write([]byte(s.ID))
+		h.Write([]byte{0})
+	}
+	return fmt.Sprintf("%d-%x", len(all), h.Sum64())
+}
+
 func child(c Check, tier string, seed uint64, shard, out, only string) int {
 	parts := strings.Split(shard, "/")
 	i, _ := strconv.Atoi(parts[0])
@@ -207,6 +223,12 @@ func child(c Check, tier string, seed uint64, shard, out, only string) int {
 	}
 	runtime.GOMAXPROCS(procs)
 	all := c.Gen(tier, seed)
+	// every process must derive the same scenario list from (tier, seed): if this child's list differs
+	// from the parent's, scenarios would be skipped or run twice without anybody noticing
+	if want := os.Getenv("VERIF_LIST_FINGERPRINT"); want != "" && want != listFingerprint(all) && !c.UnstableList {
+		fmt.Fprintf(os.Stderr, "HARNESS-FAILURE: the scenario list of this shard differs from the parent's (generator is not a function of tier and seed)\n")
+		return 3
+	}
 	f, err := os.OpenFile(out, os.O_CREATE|os.O_WRONLY|os.O_APPEND, 0o644)
 	if err != nil {
 		fmt.Fprintln(os.Stderr, "cannot open out:", err)
@@ -222,7 +244,13 @@ func child(c Check, tier string, seed uint64, shard, out, only string) int {
 	}
 	var mine []Scenario
 	for k, s := range all {
-		if k%n != i {
+		if c.UnstableList {
+			h := fnv.New64a()
+			h.Write([]byte(s.ID))
+			if int(h.Sum64()%uint64(n)) != i {
+				continue
+			}
+		} else if k%n != i {
 			continue
 		}
 		if only != "" && !strings.Contains(s.ID, only) {
@@ -280,7 +308,9 @@ func parent(c Check, tier string, seed uint64, only string) int {
 	os.MkdirAll(runDir, 0o755)
 
 	agg := &aggregate{}
-	nsc := len(c.Gen(tier, seed))
+	parentList := c.Gen(tier, seed)
+	nsc := len(parentList)
+	fingerprint := listFingerprint(parentList)
 	{
 		shards := c.Shards
 		if shards == 0 {
@@ -317,7 +347,7 @@ func parent(c Check, tier string, seed uint64, only string) int {
 				cmd.Stderr = lf
 				cmd.Env = append(os.Environ(),
 					"GORACE=halt_on_error=0 exitcode=0 log_path="+filepath.Join(runDir, fmt.Sprintf("race-%d", i)),
-					"GOTRACEBACK=all")
+					"GOTRACEBACK=all", "VERIF_LIST_FINGERPRINT="+fingerprint)
 				err := cmd.Start()
 				if err != nil {
 					mu.Lock()
